@@ -16,7 +16,7 @@ ALSO = {
     'C10': ('C01', 'C02', 'C03', 'C04', 'C05', 'C09'),   # membership changes preserve C01-C04 (and the cluster still converges)
     'C12': ('C01', 'C02', 'C05'),            # no stall, no split
     'C17': ('C01',),
-    'C18': ('C02', 'C04', 'C05'),
+    'C18': ('C02', 'C04', 'C05', 'C10'),     # (C10: the member set a read-only node reports, in the runs with dynamic membership)
 }
 
 CASES = {
@@ -135,6 +135,9 @@ def gen_cfg(prop, tier, seed, i):
             w['operator'] = pick(r2, [0.5, 1.0])
             cfg['readd_anytime'] = False
             cfg['ro_stale_list'] = True
+            # voters are only added here: removals strand lagging members behind peers that were shut down, which is the
+            # listed finding of C10 and would be reported by the convergence oracle in these runs too
+            cfg['member_ops'] = 'add_only'
             cfg['queue'] = 100000
             cfg['batch'] = pick(r2, [200, 4096, 65536])
             cfg['chunk'] = pick(r2, [50, 65536])
